@@ -277,6 +277,8 @@ def enc_node(node: list, path: tuple, mut: t.Optional[tuple]) -> bytes:
             if mut and mut[0] == p and mut[1] == "drop":
                 continue
             e = enc_node(ch, p, mut)
+            if mut and mut[0] == p and mut[1] == "insert_before":
+                parts.append(mut[2])          # an extra (optional / unexpected) member in front of this one
             parts.append(e)
             if mut and mut[0] == p and mut[1] == "dup":
                 parts.append(e)
@@ -303,6 +305,12 @@ def enc_node(node: list, path: tuple, mut: t.Optional[tuple]) -> bytes:
             return bytes([tag]) + b"\x82" + len(content).to_bytes(2, "big") + content
         elif op == "high_tag":
             return bytes([tag | 0x1F]) + arg + blobref.der_len(len(content)) + content
+        elif op == "deep_nest":
+            # the element as a constructed encoding nested `arg` levels deep (BER allows constructed strings)
+            inner = bytes([tag]) + blobref.der_len(len(content)) + content
+            for _ in range(arg):
+                inner = bytes([tag | 0x20]) + blobref.der_len(len(inner)) + inner
+            return inner
     return bytes([tag]) + blobref.der_len(len(content)) + content
 
 
@@ -328,6 +336,8 @@ def render(tree: list, mut: t.Optional[tuple], trailing: bytes = b"") -> bytes:
     for i, n in enumerate(tree):
         if mut and mut[0] == (i,) and mut[1] == "drop":
             continue
+        if mut and mut[0] == (i,) and mut[1] == "insert_before":
+            out += mut[2]
         out += enc_node(n, (i,), mut)
     return out + trailing
 
